@@ -161,6 +161,10 @@ def main():
         if key in confirmed_keys:
             continue
         open_keys.setdefault((r['contract'], r.get('receiver')), []).append((r, o))
+    for c, cs, u in unsupported:
+        # a construct outside the subset: the bounded stand-in decides this function on this run
+        rcv = [r.get('receiver') for r in results if r['contract'] == c][:1]
+        open_keys.setdefault((c, rcv[0] if rcv else None), [])
     bounded_info = {}
     for (cname, recv), items in open_keys.items():
         bd = P.get('bounds', {}).get(cname, P.get('bounds', {}).get('*', {}))
